@@ -340,6 +340,14 @@ register(
 # ---------------------------------------------------------------------------------------
 
 EW_CALLS = {"exp", "log", "log1p", "tanh", "atan", "tan", "sigmoid", "softplus", "leaky_relu", "relu", "clamp", "pow", "abs", "sqrt", "zeros_like", "ones_like", "empty_like", "where", "to", "float", "double", "type", "clone", "contiguous", "sign", "__store__", "__component__", "reciprocal", "neg", "square", "expm1", "erf"}
+EW_CALLS |= {"addcmul", "addcdiv", "lerp", "add", "sub", "mul", "div", "true_divide", "exp2", "atan2", "sin", "cos", "sinh", "cosh", "asinh", "logsigmoid", "elu", "selu", "gelu", "silu", "hardtanh", "clamp_min", "clamp_max", "clip", "detach", "half", "cpu", "cuda", "type_as", "log2", "log10", "rsqrt", "logaddexp", "maximum", "minimum", "fmod", "remainder", "masked_fill", "nan_to_num", "positive", "negative", "float_power", "arctan", "arctanh", "atanh", "asin", "acos"}
+# operations that move or combine values across positions
+MIXING_CALLS = {
+    "flip", "fliplr", "flipud", "roll", "cumsum", "cumprod", "cummax", "cummin", "logcumsumexp", "sum", "mean", "prod", "std", "var", "norm", "logsumexp", "amax", "amin", "max", "min",
+    "median", "sort", "argsort", "topk", "kthvalue", "matmul", "mm", "bmm", "mv", "linear", "einsum", "tensordot", "dot", "outer", "ger", "softmax", "log_softmax", "gather", "index_select",
+    "take", "take_along_dim", "scatter", "reshape", "view", "permute", "transpose", "t", "flatten", "unflatten", "squeeze", "unsqueeze", "repeat", "repeat_interleave", "tile", "expand", "expand_as",
+    "cat", "stack", "pad", "narrow", "chunk", "split", "unbind", "diag", "diagonal", "tril", "triu", "conv1d", "conv2d", "unfold", "fold", "movedim", "swapaxes", "rot90", "sum_except_batch", "normalize", "layer_norm", "batch_norm",
+}
 REDUCE_OK_FOR_LOGDET = {"sum_except_batch", "sum"}
 
 
@@ -399,6 +407,7 @@ def elementwise_rule(ctx, table=None, rule="CPL-ELEM", floor=4):
                     return r
 
                 bad = None
+                unknown = None
                 for n in uwalk(out):
                     if isinstance(n, ast.Call) and depends(n):
                         last = _last(n)
@@ -410,6 +419,9 @@ def elementwise_rule(ctx, table=None, rule="CPL-ELEM", floor=4):
                         if last in EW_CALLS:
                             continue
                         if last in ("view", "reshape", "expand", "expand_as", "unsqueeze") and False:
+                            continue
+                        if last not in MIXING_CALLS:
+                            unknown = (n, last)
                             continue
                         bad = (n, "`%s` is applied to an input-dependent value" % last)
                         break
@@ -424,7 +436,9 @@ def elementwise_rule(ctx, table=None, rule="CPL-ELEM", floor=4):
                     if isinstance(n, ast.BinOp) and isinstance(n.op, ast.MatMult) and depends(n):
                         bad = (n, "a matrix product is applied to an input-dependent value")
                         break
-                if bad is None:
+                if bad is None and unknown is not None:
+                    res.undecide("%s.%s" % (cname, m), "`%s` is applied to an input-dependent value; it is neither in the table of element-wise operations nor in the table of position-mixing ones" % unknown[1])
+                elif bad is None:
                     res.ok("%s.%s: outputs are an elementwise function of `%s`" % (cname, m, x))
                 else:
                     res.fail(Finding(rule, fi.module, fi.qualname, path.ret_node, "%s.%s: %s (`%s`): an output position then depends on other positions of the inputs, so the Jacobian is not diagonal while the log-det sums an elementwise derivative" % (cname, m, bad[1], brief(bad[0], 60)[:70])))
